@@ -30,20 +30,61 @@ def one_history(seed, steps, mode):
     finally:
         p.cleanup()
 
+
+def directed_checkout_edits(mode):
+    """edits that change only the checkout step of a package with a deterministic checkout (script text with a different
+    effect, value of a checkoutVars variable, pinned git tag): the incremental build must equal a clean build"""
+    import subprocess, tempfile, shutil, copy
+    base = tempfile.mkdtemp(prefix='c01d-'); log = []
+    env = {'GIT_CONFIG_NOSYSTEM': '1', 'GIT_AUTHOR_NAME': 'u', 'GIT_AUTHOR_EMAIL': 'u@example.com', 'GIT_COMMITTER_NAME': 'u', 'GIT_COMMITTER_EMAIL': 'u@example.com', 'HOME': base}
+    def git(cwd, *a):
+        e = dict(os.environ); e.update(env); subprocess.run(['git', *a], cwd=cwd, check=True, stdout=subprocess.DEVNULL, stderr=subprocess.DEVNULL, env=e)
+    try:
+        up = os.path.join(base, 'up'); os.makedirs(up); git(up, 'init', '-q', '-b', 'master')
+        for i in (1, 2):
+            with open(os.path.join(up, 'data.txt'), 'w') as f: f.write('tag-%d\n' % i)
+            git(up, 'add', 'data.txt'); git(up, 'commit', '-q', '-m', 'c%d' % i); git(up, 'tag', 'v%d' % i)
+        def model(script_val, var_val, tag):
+            return {'recipes': {
+                'r0': {'root': True, 'depends': ['lib', 'gl'], 'buildScript': 'cat "$2"/result.txt "$3"/result.txt > out.txt\n', 'packageScript': 'cp "$1"/out.txt result.txt\n'},
+                'lib': {'checkoutDeterministic': True, 'environment': {'CV': var_val}, 'checkoutVars': ['CV'],
+                        'checkoutScript': 'echo "%s ${CV}" > s.txt\n' % script_val, 'buildScript': 'cp "$1"/s.txt out.txt\n', 'packageScript': 'cp "$1"/out.txt result.txt\n'},
+                'gl': {'checkoutSCM': {'scm': 'git', 'url': 'file://' + up, 'tag': tag}, 'buildScript': 'cp "$1"/data.txt out.txt\n', 'packageScript': 'cp "$1"/out.txt result.txt\n'}},
+                'config': {}}
+        p = P.Project(root=os.path.join(base, 'proj')); p.env.update(env)
+        states = [('s1', 'c1', 'v1'), ('s2', 'c1', 'v1'), ('s2', 'c2', 'v1'), ('s2', 'c2', 'v2'), ('s1', 'c1', 'v1')]
+        for i, st in enumerate(states):
+            m = model(*st); p.write(m); log.append('script=%s var=%s tag=%s' % st)
+            rc, out = p.bob(mode, 'r0')
+            if rc != 0: return None, ['(project does not build: %s)' % out[-200:].replace('\n', ' ')]
+            inc = H.dist_contents(p, None)
+            c = P.Project(root=os.path.join(base, 'clean%d' % i)); c.env.update(env); c.write(m)
+            rc2, out2 = c.bob(mode, 'r0')
+            if rc2 != 0: return None, ['(clean build failed)']
+            ref = H.dist_contents(c, None); c.cleanup()
+            for name, dig in ref.items():
+                if inc.get(name) != dig:
+                    return {'kind': 'incremental-differs-from-clean', 'package': name, 'mode': mode, 'history': log, 'what': 'edit of a deterministic checkout (script / checkoutVars value / pinned tag)'}, log
+        return None, log
+    except Exception as ex:
+        return None, ['harness problem: %r' % (ex,)]
+    finally:
+        shutil.rmtree(base, ignore_errors=True)
+
 def replay(rep):
     seed = int(os.environ.get('VERIF_SEED', '0') or 0)
     thorough = os.environ.get('VERIF_TIER') == 'thorough'
     n = 40 if thorough else 12; steps = 5 if thorough else 3
     tried = 0; distinct = set(); samples = []; problems = 0
     with cf.ThreadPoolExecutor(max_workers=8) as ex:
-        futs = [ex.submit(one_history, seed * 1000 + i, steps, 'dev' if i % 3 else 'build') for i in range(n)]
+        futs = [ex.submit(directed_checkout_edits, 'dev'), ex.submit(directed_checkout_edits, 'build')] + [ex.submit(one_history, seed * 1000 + i, steps, 'dev' if i % 3 else 'build') for i in range(n)]
         for f in cf.as_completed(futs):
             w, log = f.result(); tried += 1
-            if log and str(log[-1]).startswith('harness problem'): problems += 1; continue
+            if log and (str(log[-1]).startswith('harness problem') or str(log[-1]).startswith('(project does not') or str(log[-1]).startswith('(clean build')): problems += 1; continue
             distinct.add(tuple(log))
             if len(samples) < 3: samples.append({'edit_history': log})
             if w is not None: return {'reproduced': True, 'tried': tried, 'witness': w}
     if problems > tried // 2: return {'reproduced': None, 'detail': 'harness problems in %d of %d cases' % (problems, tried)}
     return {'reproduced': False, 'tried': tried, 'distinct': len(distinct), 'samples': samples,
-            'bound': '%d generated projects (2-4 recipes), edit histories of %d steps, develop and release mode' % (n, steps),
+            'bound': '2 directed histories of deterministic-checkout edits (script, checkoutVars value, pinned git tag, revert) + %d generated projects (2-4 recipes), edit histories of %d steps, develop and release mode' % (n, steps),
             'detail': 'dist content after every incremental build equals a clean build; repeated builds execute nothing'}
